@@ -269,4 +269,46 @@ pub fn run(tier: &str, seed: u64, out: &mut Out) {
         run_rchars(&s, &hh, h.as_bytes(), out);
         run_rchar_indices(&s, &hh, h.as_bytes(), out);
     }
+    run_large(thorough, seed, out);
+}
+
+/// seeded stream of LARGE / RARE inputs: strings of 10..=40 chars from the whole scalar range (the
+/// edge scalars over-represented) under histories of 12..=60 steps (usually longer than the string:
+/// exhaustion is crossed and the iterator is polled after it), u32 values from the whole 32-bit
+/// range for `from_u32`, random chars for `encode_utf8`
+fn run_large(thorough: bool, seed: u64, out: &mut Out) {
+    let mut rng = Rng(seed ^ 0xC07_1A26E);
+    let m = if thorough { 10 } else { 1 };
+    for i in 0..260 * m {
+        let s = rand_string(&mut rng, 10, 40);
+        let nch = s.chars().count();
+        let d = if i % 2 == 0 { (nch + 2 + rng.below(10) as usize).min(60) } else { 12 + rng.below(49) as usize };
+        // bias of the front/back choice: all front, all back, mostly one end, even
+        let pf = [0u64, 8, 1, 7, 4, 4, 2, 6][rng.below(8) as usize];
+        let h: String = (0..d).map(|_| if rng.below(8) < pf { 'f' } else { 'b' }).collect();
+        run_chars(&s, &h, h.as_bytes(), out);
+        run_char_indices(&s, &h, h.as_bytes(), out);
+        run_rchars(&s, &h, h.as_bytes(), out);
+        run_rchar_indices(&s, &h, h.as_bytes(), out);
+    }
+    for i in 0..2000 * m {
+        let r = rng.next();
+        let n: u32 = match i % 8 {
+            // the whole 32-bit range
+            0 | 1 | 2 => r as u32,
+            // below / just above the scalar range
+            3 => (r % 0x120000) as u32,
+            // the surrogate gap and its neighbourhood
+            4 => 0xD000 + (r % 0x1800) as u32,
+            // a valid scalar with high garbage bits (a truncating / masking conversion would accept it)
+            5 => ((r % 0x110000) as u32) | (1u32 << (21 + (r >> 32) % 11)),
+            // multiples of the range size away from a valid scalar
+            6 => ((r % 0x110000) as u32).wrapping_add(0x110000u32.wrapping_mul(1 + ((r >> 32) % 3000) as u32)),
+            _ => (r as u32) | 0x8000_0000,
+        };
+        from_u32_one(n, out);
+    }
+    for _ in 0..2500 * m {
+        enc_one(rand_char(&mut rng), out);
+    }
 }
